@@ -153,6 +153,10 @@ class PhysicsStream(Stream):
                 ints = (k % 4 == 3)
                 out.append({"block": b, "args": info["gen"](rng, ints), "ints": ints,
                             "in_solver": k % 5 == 4})
+                if k % 2 == 1:
+                    # a SECOND instance of the block, with other arguments, is built (and solved) before this one is
+                    # read: instances must not share anything
+                    out[-1]["other"] = info["gen"](rng, False)
         return out
 
     def run(self, d):       # not used (custom_eval)
@@ -161,6 +165,12 @@ class PhysicsStream(Stream):
     def observe(self, d):
         info = BLOCKS[d["block"]]
         m = info["make"](d["args"])
+        if d.get("other") is not None:
+            try:
+                o = info["make"](d["other"])
+                o.solve(**info["kw"](d["other"]))
+            except Exception:
+                pass
         if d.get("in_solver"):
             with lk.Solver() as S:
                 m.put()
